@@ -1,5 +1,6 @@
 import BppModel.Proto
 import BppModel.Hmm
+import BppModel.HmmFull
 /-
 Driver for C13 (HMM likelihoods).  Registers: the staged tables (`states`/`trans`/`eq`/`emis`)
 and named likelihood objects built from them.  The model answer of every query comes from the
@@ -23,6 +24,8 @@ structure DTables where
   P : Array Float := #[]
   F : Array Float := #[]
   E : Array Float := #[]
+  /-- the namespace of the parameters (`setNamespace`): derivative variables are full parameter names -/
+  pre : String := ""
 deriving Inhabited
 
 def DTables.T (t : DTables) : Nat := if t.n == 0 then 0 else t.E.size / t.n
@@ -36,8 +39,8 @@ def DTables.model (t : DTables) : Tables Float :=
     e0 := fun j => E[j]!
     es := (List.range (t.T - 1)).map (fun s => fun j => E[(s + 1) * n + j]!)
     -- the harness' emission object: derivative with respect to e<s>_<j> is the indicator of that entry
-    dE := fun var => (fun j => if var == ename 0 j then 1.0 else 0.0,
-                      (List.range (t.T - 1)).map (fun s => fun j => if var == ename (s + 1) j then 1.0 else 0.0))
+    dE := fun var => (fun j => if var == t.pre ++ ename 0 j then 1.0 else 0.0,
+                      (List.range (t.T - 1)).map (fun s => fun j => if var == t.pre ++ ename (s + 1) j then 1.0 else 0.0))
     d2E := fun _ => (fun _ => 0.0, (List.range (t.T - 1)).map (fun _ => fun _ => 0.0)) }
 
 /-! exact copies of the tables -/
@@ -57,6 +60,12 @@ def DTables.finite (t : DTables) : Bool :=
 def DTables.nonneg (t : DTables) : Bool :=
   t.finite && (t.P.all (· ≥ 0)) && (t.F.all (· ≥ 0)) && (t.E.all (· ≥ 0))
 
+/-- a built-in transition model: `Hmm.AutoTM` / `Hmm.FullTM` (rows = C19's simplices, equilibrium
+vector = row 0 of P^256 by C04's `pow`) -/
+inductive TM where
+  | auto (m : AutoTM Float)
+  | full (m : FullTM Float)
+
 inductive Core where
   | resc (o : RescObj Float)
   | low (o : LowObj Float)
@@ -69,27 +78,27 @@ structure Obj where
   /-- an update raised since the last successful recomputation: the object is outside the
   hypotheses of `history_independent` -/
   stale : Bool := false
+  /-- the transition matrix is (a copy of) a built-in model: `tab.P`, `tab.F` are what it answers -/
+  tm : Option TM := none
 
 def Obj.bps (o : Obj) : List Nat :=
   match o.core with | .resc r => r.bps | .low l => l.bps | .log g => g.bps
 def Obj.logLik (o : Obj) : Float :=
   match o.core with | .resc r => r.fw.logLik | .low l => l.logLik | .log g => g.fw.ll
 
-/-- a built-in transition model: the auto-correlation one is modelled (`Hmm.AutoTM`); the full one
-(rows = C19 simplices, equilibrium = row 0 of P^256 by C04's `pow`) is not — its answers are echoed
-and only judged (row-stochastic, stationary, independent of the order of queries) -/
-inductive TM where
-  | auto (m : AutoTM Float)
-  | full (n : Nat) (lastP : Option (Array Float)) (seenPij seenEq : Option (List String))
-
 structure St where
   stage : DTables := {}
   objs : List (String × Obj) := []
   tms : List (String × TM) := []
+  /-- named `std::vector<std::vector<double>>` targets of `getHiddenStatesPosteriorProbabilities(probs, append)` -/
+  bufs : List (String × List (List Float)) := []
 
 def St.get? (s : St) (k : String) : Option Obj := (s.objs.find? (·.1 == k)).map (·.2)
 def St.put (s : St) (k : String) (o : Obj) : St := { s with objs := (k, o) :: s.objs.filter (·.1 != k) }
 def St.del (s : St) (k : String) : St := { s with objs := s.objs.filter (·.1 != k) }
+
+def St.getBuf (s : St) (k : String) : List (List Float) := ((s.bufs.find? (·.1 == k)).map (·.2)).getD []
+def St.putBuf (s : St) (k : String) (b : List (List Float)) : St := { s with bufs := (k, b) :: s.bufs.filter (·.1 != k) }
 
 def St.getTM? (s : St) (k : String) : Option TM := (s.tms.find? (·.1 == k)).map (·.2)
 def St.putTM (s : St) (k : String) (m : TM) : St := { s with tms := (k, m) :: s.tms.filter (·.1 != k) }
@@ -102,8 +111,18 @@ def implFloats? (l : List String) : Option (List Float) := if l == ["-"] then so
 
 def showAns : Ans Float → String
   | .exc => "exc:bpp"
+  | .ub => "ub"
   | .val x => hx x
   | .mat m => hxs m.flatten
+
+/-- rows separated by `;` (the rows of a target vector may have different lengths) -/
+def showRows (m : List (List Float)) : String :=
+  if m.isEmpty then "-" else " ; ".intercalate (m.map (fun r => " ".intercalate (r.map hx)))
+def showAnsRows : Ans Float → String
+  | .mat m => showRows m
+  | a => showAns a
+def implRows? (l : List String) : Option (List (List Float)) :=
+  if l == ["-"] then some [] else (splitTok ";" l).mapM (fun r => r.mapM implFloat?)
 
 /-! ## exact reference -/
 
@@ -122,10 +141,12 @@ def ratToFloat (q : Rat) : Float :=
   let s : Float := if q < 0 then -1.0 else 1.0
   s * Float.exp (ratLog (if q < 0 then -q else q))
 
-def validBreaks (T : Nat) (bps : List Nat) : Bool :=
-  bps.all (fun b => decide (1 ≤ b) && decide (b < T)) && (bps.zip bps.tail).all (fun (a, b) => decide (a < b))
+/-- the break points an object can hold (`Hmm.breaksOk`: `setBreakPoints` refuses the others) -/
+def validBreaks (T : Nat) (bps : List Nat) : Bool := breaksOk T bps
 
-def small (t : DTables) : Bool := t.n ^ t.T ≤ 3000
+/-- small enough for the enumeration of all hidden paths in exact arithmetic (a single state has one path of any
+length: the length is bounded as well) -/
+def small (t : DTables) : Bool := t.n ^ t.T ≤ 3000 && t.T ≤ 40
 
 /-- exact likelihood of the current tables: enumeration when small, else the unscaled forward
 recursion in exact arithmetic (`forward_is_path_sum`) -/
@@ -195,11 +216,16 @@ def histCheck (o : Obj) (impl : List String) (spec : Ans Float) : String :=
 def specOf (o : Obj) (op : Op Float) : Ans Float :=
   let t := o.tab.model
   match o.core with
-  | .resc r => rescSpec t r.bps op
-  | .log g => logSpec t g.bps op
-  | .low l => match op with
-    | .posterior | .d1 _ | .d2 _ => .exc
-    | _ => .val (lowCompute t l.maxSize l.bps)
+  | .resc r => rescSpec t r.bps r.dVar r.d2Var op
+  | .log g => logSpec t g.bps g.dVar g.d2Var op
+  | .low l => lowSpec t l.maxSize l.bps op
+
+/-- the precondition of the per-site derivative accessors (`Hmm.derivNamesOk`) -/
+def namesOk (o : Obj) (second : Bool) : Bool :=
+  match o.core with
+  | .resc r => r.dVar != "" && (!second || r.d2Var != "")
+  | .log g => g.dVar != "" && (!second || g.d2Var != "")
+  | .low _ => true
 
 def both (a b : String) : String := if a.startsWith "FAIL" then a else if b.startsWith "FAIL" then b else if a == "-" then b else a
 
@@ -223,27 +249,11 @@ def sumsToOne (ll : Float) (r : List Float) : Bool :=
   !s.isNaN && Float.abs (s - 1.0) ≤ sumTol ll
 
 /-- posterior rows answered by the implementation -/
-def postVerdict (o : Obj) (impl : Option (List String)) (rows : Option (List Nat)) : String :=
-  match impl with
-  | none => "-"
-  | some ans =>
-    if isExc ans || o.stale then "-" else
-    match implFloats? ans with
-    | none => "FAIL:parse"
-    | some xs =>
+def postJudge (o : Obj) (m : List (List Float)) (rows : Option (List Nat)) : String :=
       let t := o.tab
-      let n := t.n
-      if xs.length % n != 0 then "FAIL:parse" else
-      let m := (List.range (xs.length / n)).map (fun i => (xs.drop (i * n)).take n)
+      if o.stale then "-" else
       if !t.nonneg then "-" else
-      if !validBreaks t.T o.bps then
-        -- outside the theorem's domain (recorded finding C13-invalid-breaks): setBreakPoints does not validate
-        -- its argument, forward and backward passes then reset at different positions
-        (match o.core with
-         | .resc _ =>
-           if m.all (fun r => r.all Float.isFinite) && !(m.all (fun r => sumsToOne o.logLik r))
-           then "FAIL:posterior_invalid_breaks" else "-"
-         | _ => "-") else
+      if !validBreaks t.T o.bps then "-" else   -- unreachable: setBreakPoints refuses such vectors
       -- double range: with emissions below 1e-100 forward entries underflow to 0 while backward entries
       -- overflow, and the product is NaN; rounding/overflow is outside the exact-arithmetic model
       if t.E.any (fun x => x > 0.0 && x < 1e-100) && m.any (fun r => r.any (fun x => x.isNaN || x.isInf)) then "-" else
@@ -259,10 +269,40 @@ def postVerdict (o : Obj) (impl : Option (List String)) (rows : Option (List Nat
           if (ex'.zip m).all (fun (er, r) => (er.zip r).all (fun (q, x) => Float.abs (x - ratToFloat q) ≤ 1e-9)) then "ok"
           else "FAIL:posterior_marginal"
       | none =>
-        -- too long for the exact reference: normalisation only
+        -- too long for the exact reference: normalisation only; data of probability zero (log-likelihood -inf:
+        -- some scale factor is 0) have no posterior
+        if !o.logLik.isFinite then "-" else
         if m.all (fun r => r.all (fun x => x ≥ 0.0) && sumsToOne o.logLik r) then "ok"
         else if m.any (fun r => r.any Float.isNaN) then "-"   -- likelihood underflowed to 0: posterior undefined
         else "FAIL:posterior_prob"
+
+def postVerdict (o : Obj) (impl : Option (List String)) (rows : Option (List Nat)) : String :=
+  match impl with
+  | none => "-"
+  | some ans =>
+    if isExc ans || o.stale then "-" else
+    match implFloats? ans with
+    | none => "FAIL:parse"
+    | some xs =>
+      let n := o.tab.n
+      if xs.length % n != 0 then "FAIL:parse" else
+      postJudge o ((List.range (xs.length / n)).map (fun i => (xs.drop (i * n)).take n)) rows
+
+/-- `getHiddenStatesPosteriorProbabilities(probs, append)`: the rows that were in `probs` are kept
+(`append`) or dropped, and the last `T` rows are the posterior matrix -/
+def postIntoVerdict (o : Obj) (impl : Option (List String)) (buf : List (List Float)) (append : Bool) : String :=
+  match impl with
+  | none => "-"
+  | some ans =>
+    if isExc ans || o.stale then "-" else
+    match implRows? ans with
+    | none => "FAIL:parse"
+    | some m =>
+      let keep := if append then buf else []
+      if m.length != keep.length + o.tab.T then "FAIL:append_layout"
+      else if showRows (m.take keep.length) != showRows keep then "FAIL:append_preserves"
+      else if !((m.drop keep.length).all (fun r => r.length == o.tab.n)) then "FAIL:append_layout"
+      else postJudge o (m.drop keep.length) none
 
 /-- per-site likelihoods answered by the implementation: `Σ_j posterior_i(j)·e_i(j)` of the exact marginals -/
 def siteVerdict (o : Obj) (impl : Option (List String)) (rows : Option (List Nat)) : String :=
@@ -348,8 +388,15 @@ def derivVerdict (o : Obj) (impl : List String) (var : String) (order : Nat) : S
       let t := o.tab
       -- the rescaled recursions need a stationary equilibrium vector (see `stationary`); the log-sum ones
       -- (not modelled, judged on the implementation only) divide by every emission probability
-      let applicable := match o.core with | .resc _ => stationary t | .log _ => t.positive | .low _ => false
+      -- double range of the log-sum recursions: they divide by every emission probability (squared at order 2)
+      let eLo : Float := if order == 1 then 1e-140 else 1e-95
+      let applicable := match o.core with
+        | .resc _ => stationary t
+        | .log _ => t.positive && t.E.all (· ≥ eLo)
+        | .low _ => false
       if o.stale || !t.nonneg || !applicable || !validBreaks t.T o.bps || !rangeOk t o.bps then "-" else
+      if !var.startsWith t.pre then "-" else
+      let var := (var.drop t.pre.length).toString
       if !var.startsWith "e" then "-" else
       match parse2 (var.drop 1).toString with
       | none => "-"
@@ -365,6 +412,57 @@ def derivVerdict (o : Obj) (impl : List String) (var : String) (order : Nat) : S
           else if order == 1 then "FAIL:derivative1" else "FAIL:derivative2"
   | _ => "FAIL:parse"
 
+/-- verdict on a per-site derivative term (both classes): the term of site `i` is the derivative of
+`log P(x_i | x_start..i-1)` = `d log L(start..i) − d log L(start..i-1)`, `start` the first position of the
+segment of `i` and `L` the exact likelihood of a prefix of the segment (affine in the emission entry) -/
+def derivSiteVerdict (o : Obj) (impl : List String) (site : Nat) (second : Bool) : String :=
+  match impl with
+  | [a] =>
+    match implFloat? a with
+    | none => "FAIL:parse"
+    | some x =>
+      let t := o.tab
+      let (var, var2) := match o.core with | .resc r => (r.dVar, r.d2Var) | .log g => (g.dVar, g.d2Var) | .low _ => ("", "")
+      -- the second-order accessor of the rescaled class mixes the arrays of the two variables when they differ
+      if second && var != var2 then "-" else
+      let applicable := match o.core with
+        | .resc _ => stationary t
+        | .log _ => t.positive && t.E.all (· ≥ 1e-95)
+        | .low _ => false
+      if !t.nonneg || !applicable || !validBreaks t.T o.bps || !rangeOkAt 1e-95 t o.bps then "-" else
+      if !var.startsWith t.pre then "-" else
+      let var := (var.drop t.pre.length).toString
+      if !var.startsWith "e" then "-" else
+      match parse2 (var.drop 1).toString with
+      | none => "-"
+      | some (sv, j) =>
+        if sv ≥ t.T || j ≥ t.n then "-" else
+        -- exact prefix likelihoods of the segment that contains `hi`: tables cut to the positions lo..hi
+        let segStart (i : Nat) : Nat := (o.bps.filter (· ≤ i)).foldl (fun a b => if b > a then b else a) 0
+        let prefixD (lo hi : Nat) : Option (Rat × Rat) :=
+          -- d/de log L and d²/de² log L of the positions lo..hi (chain started at lo)
+          let sub : DTables := { t with E := (t.E.toList.drop (lo * t.n)).take ((hi + 1 - lo) * t.n) |>.toArray }
+          if sv < lo || sv > hi then some (0, 0) else
+          match exactLik' sub [] none, exactLik' sub [] (some ((sv - lo) * t.n + j)) with
+          | some l0, some l1 => if l0 == 0 then none else let b := (l1 - l0) / l0; some (b, -(b * b))
+          | _, _ => none
+        match o.core with
+        | .low _ => "-"
+        | _ =>
+          let lo := segStart site
+          let cur := prefixD lo site
+          let prev := if site == lo then some (0, 0) else prefixD lo (site - 1)
+          match cur, prev with
+          | some (c1, c2), some (p1, p2) =>
+            let want := ratToFloat (if second then c2 - p2 else c1 - p1)
+            -- the log-sum class subtracts two prefix derivatives that are each O(|d log L|): absolute tolerance
+            let scale := Float.abs (ratToFloat c1) + Float.abs (ratToFloat p1) + 1.0
+            let tol := if second then 1e-7 * scale * scale else 1e-7 * scale
+            if Float.abs (x - want) ≤ tol then "ok"
+            else if second then "FAIL:derivative2_site" else "FAIL:derivative1_site"
+          | _, _ => "-"
+  | _ => "FAIL:parse"
+
 /-! ## built-in transition models -/
 
 def rowsOfFlat (n : Nat) (xs : List Float) : List (List Float) :=
@@ -374,15 +472,122 @@ def rowsOfFlat (n : Nat) (xs : List Float) : List (List Float) :=
 def stochasticRows (n : Nat) (xs : List Float) : Bool :=
   xs.length == n * n && (rowsOfFlat n xs).all (fun r => r.all (fun x => x ≥ 0.0) && Float.abs (r.foldl (· + ·) 0.0 - 1.0) ≤ 1e-12)
 
-/-- a probability vector with `π·P = π` (to 1e-9) -/
-def stationaryOf (n : Nat) (P : List Float) (pi : List Float) : Bool :=
+/-- a probability vector with `|(π·P)_j − π_j| ≤ tol` for every `j` -/
+def stationaryOf (n : Nat) (P : List Float) (pi : List Float) (tol : Float := 1e-9) : Bool :=
   pi.length == n && pi.all (fun x => x ≥ 0.0) && Float.abs (pi.foldl (· + ·) 0.0 - 1.0) ≤ 1e-9 &&
   (List.range n).all (fun j =>
     let v := (List.range n).foldl (fun a k => a + (pi.getD k 0.0) * (P.getD (k * n + j) 0.0)) 0.0
-    Float.abs (v - pi.getD j 0.0) ≤ 1e-9)
+    Float.abs (v - pi.getD j 0.0) ≤ tol)
+
+/-- the remainder of `full_stationary_remainder`: row 0 of `P^256` is stationary up to
+`2·(1 − n·δ)^256`, `δ` the smallest entry of `P` (plus 1e-9 for the rounding of 8 squarings) -/
+def fullTol (n : Nat) (P : List Float) : Float :=
+  let d := P.foldl (fun a x => if x < a then x else a) 1.0
+  let c := 1.0 - Float.ofNat n * d
+  let c := if c < 0.0 then 0.0 else c
+  2.0 * Float.pow c 256.0 + 1e-9
 
 def parseLambda (name : String) : Option Nat :=
   if name.startsWith "lambda" then ((name.drop 6).toString.toNat?).bind (fun k => if k ≥ 1 && (name.drop 6).toString == toString k then some (k - 1) else none) else none
+
+/-- "<i+1>.theta<k+1>" -/
+def parseTheta (name : String) : Option (Nat × Nat) :=
+  match name.splitOn ".theta" with
+  | [a, b] => do
+    let i ← a.toNat?; let k ← b.toNat?
+    if i ≥ 1 && k ≥ 1 && name == s!"{i}.theta{k}" then some (i - 1, k - 1) else none
+  | _ => none
+
+/-- the three queries of a transition matrix answered from the parameters alone (no cache) -/
+structure TMSpec where
+  n : Nat
+  pij : List (List Float)
+  entry : Nat → Nat → Option Float
+  eq : Option (List Float)
+
+def TM.n : TM → Nat
+  | .auto m => m.n
+  | .full m => m.n
+
+def TM.spec : TM → TMSpec
+  | .auto m => { n := m.n, pij := autoMatrix m.n m.lam, entry := fun i j => (m.lam[i]?).map (fun li => autoEntry m.n li i j), eq := some m.eq }
+  | .full m => { n := m.n, pij := fullMatrix m.rows, entry := fullEntry m.rows, eq := fullEqOf m.n (fullMatrix m.rows) }
+
+/-- the cached object's answers -/
+def TM.getPij : TM → TM × List (List Float)
+  | .auto m => let r := m.getPij; (.auto r.1, r.2)
+  | .full m => let r := m.getPij; (.full r.1, r.2)
+def TM.getEq : TM → TM × Option (List Float)
+  | .auto m => (.auto m, some m.eq)
+  | .full m => let r := m.getEq; (.full r.1, r.2)
+
+/-- `setParameterValue(name, v)` on a built-in transition model: the new model, or the exception -/
+def TM.setParam (tm : TM) (name : String) (v : Float) : Except String TM :=
+  match tm with
+  | .auto m =>
+    match parseLambda name with
+    | none => .error "exc:notfound"
+    | some i =>
+      if i ≥ m.n then .error "exc:notfound" else
+      let old := m.lam.getD i 0.0
+      -- Parameter::setValue: nothing happens unless |v - old| > 0; then the constraint ]0,1[ is checked
+      if !(Float.abs (v - old) > 0) then .ok (.auto (m.setLambda i old))
+      else if !(v > 0.0 && v < 1.0) then .error "exc:constraint"
+      else .ok (.auto (m.setLambda i v))
+  | .full m =>
+    match parseTheta name with
+    | none => .error "exc:notfound"
+    | some (i, j) =>
+      let r := m.setTheta i j v
+      match r.2 with
+      | none => .ok (.full r.1)
+      | some e => .error e.show
+
+/-- the update of a built-in model held by a likelihood object, `setParameterValue(name, v)` on the likelihood:
+`Parameter::setValue` on the likelihood's own copy of the parameter (nothing unless `|v - old| > 0`, then the
+constraint), then `fireParameterChanged` → `matchParametersValues` on the model, which assigns and notifies the
+model only when the value differs: an unchanged value leaves the model as it is (its equilibrium vector is not
+recomputed) -/
+def TM.matchParam (tm : TM) (name : String) (v : Float) : Except String TM :=
+  match tm with
+  | .auto m =>
+    match parseLambda name with
+    | none => .error "exc:notfound"
+    | some i =>
+      if i ≥ m.n then .error "exc:notfound" else
+      let old := m.lam.getD i 0.0
+      if !(Float.abs (v - old) > 0) then .ok tm else tm.setParam name v
+  | .full m =>
+    match parseTheta name with
+    | none => .error "exc:notfound"
+    | some (i, k) =>
+      match (m.rows[i]?).bind (·.params[k]?) with
+      | none => .error "exc:notfound"
+      | some old => if !(Float.abs (v - old) > 0) then .ok tm else tm.setParam name v
+
+/-- the parameter names of a built-in model, in the order of its parameter list -/
+def TM.names : TM → List String
+  | .auto m => (List.range m.n).map (fun i => s!"lambda{i + 1}")
+  | .full m => (List.range m.n).flatMap (fun i => (List.range (m.n - 1)).map (fun k => s!"{i + 1}.theta{k + 1}"))
+
+def showOpt (x : Option (List Float)) : String := match x with | some l => hxs l | none => "ub"
+
+/-- verdict on a matrix returned by `getPij()` -/
+def pijVerdict (tm : TM) (xs : List Float) : String :=
+  let n := tm.n
+  match tm with
+  | .auto _ => if stochasticRows n xs then "ok" else "FAIL:autocorr_row_stochastic"
+  | .full _ => if stochasticRows n xs then "ok" else "FAIL:full_matrix_row_stochastic"
+
+/-- verdict on an equilibrium vector, for the matrix `P` -/
+def eqVerdict (tm : TM) (P : List Float) (xs : List Float) : String :=
+  let n := tm.n
+  match tm with
+  | .auto _ => if stationaryOf n P xs then "ok" else "FAIL:autocorr_stationary"
+  | .full _ => if !stochasticRows n P then "-" else if stationaryOf n P xs (fullTol n P) then "ok" else "FAIL:full_stationary"
+
+def histTM (impl : List String) (spec : String) : String :=
+  if " ".intercalate impl == spec then "ok" else "FAIL:transition_history_independent"
 
 def tmStep (s : St) (op : List String) (impl : Option (List String)) : St × String × String :=
   match op with
@@ -391,85 +596,89 @@ def tmStep (s : St) (op : List String) (impl : Option (List String)) : St × Str
     | none => (s, "bad-op", "-")
     | some n =>
       if kind == "auto" then (s.putTM k (.auto (AutoTM.build n)), "ok", "-")
-      else if kind == "full" then (s.putTM k (.full n none none none), "ok", "-")
+      else if kind == "full" then
+        match FullTM.build n with
+        | some m => (s.putTM k (.full m), "ok", "-")
+        | none => (s, "exc:constraint", "-")
       else (s, "bad-op", "-")
+  | ["tmclone", k, k2] =>
+    match s.getTM? k with
+    | some m => (s.putTM k2 m, "ok", "-")
+    | none => (s, "no-object", "-")
+  | ["tmassign", k, k2] =>
+    -- `*k2 = *k` (operator= of the class; both of the same class)
+    match s.getTM? k, s.getTM? k2 with
+    | some (.auto m), some (.auto _) => (s.putTM k2 (.auto m), "ok", "-")
+    | some (.full m), some (.full _) => (s.putTM k2 (.full m), "ok", "-")
+    | some _, some _ => (s, "class-mismatch", "-")
+    | _, _ => (s, "no-object", "-")
   | o :: k :: args =>
     match s.getTM? k with
     | none => (s, "no-object", "-")
-    | some (.auto m) =>
+    | some tm =>
+      let n := tm.n
       match o, args with
       | "tmset", [name, v] =>
-        match Hex.float? v, parseLambda name with
-        | some v, some i =>
-          if i ≥ m.n then (s, "exc:notfound", "-") else
-          let old := m.lam.getD i 0.0
-          -- Parameter::setValue: nothing happens unless |v - old| > 0; then the constraint ]0,1[ is checked
-          if !(Float.abs (v - old) > 0) then (s.putTM k (.auto (m.setLambda i old)), "ok", "-")
-          else if !(v > 0.0 && v < 1.0) then (s, "exc:constraint", "-")
-          else (s.putTM k (.auto (m.setLambda i v)), "ok", "-")
-        | some _, none => (s, "exc:notfound", "-")
+        match Hex.float? v with
+        | none => (s, "bad-op", "-")
+        | some v =>
+          match tm.setParam name v with
+          | .ok tm' => (s.putTM k tm', "ok", "-")
+          | .error e => (s, e, "-")
+      | "tmsetP", r =>
+        match floats? r, tm with
+        | some a, .full m =>
+          let r := m.setRows (rowsOfFlat n a.toList)
+          (s.putTM k (.full r.1), match r.2 with | none => "ok" | some e => e.show, "-")
+        | some _, .auto _ => (s, "bad-op", "-")
         | none, _ => (s, "bad-op", "-")
       | "tmpij", [] =>
-        let (m', p) := m.getPij
+        let (tm', p) := tm.getPij
         let verdict := match impl with
-          | some i => (match implFloats? i with
-            | some xs =>
-              -- a single state: the matrix is [λ], not [1] (recorded finding C13-autocorr-one-state)
-              if m.n < 2 then (if stochasticRows m.n xs then "ok" else "FAIL:autocorr_one_state")
-              else if stochasticRows m.n xs then "ok" else "FAIL:autocorr_row_stochastic"
+          | some i => if isExc i then "-" else (match implFloats? i with
+            | some xs => both (pijVerdict tm xs) (histTM i (hxs tm.spec.pij.flatten))
             | none => "FAIL:parse")
           | none => "-"
-        (s.putTM k (.auto m'), hxs p.flatten, verdict)
+        (s.putTM k tm', hxs p.flatten, verdict)
       | "tmPij", [i, j] =>
         match nat? i, nat? j with
-        | some i, some j => (match m.lam[i]? with | some li => (s, hx (autoEntry m.n li i j), "-") | none => (s, "bad-index", "-"))
+        | some i, some j =>
+          if i ≥ n || j ≥ n then (s, "bad-index", "-") else
+          let out := match tm.spec.entry i j with | some x => hx x | none => "ub"
+          (s, out, match impl with | some im => histTM im out | none => "-")
         | _, _ => (s, "bad-op", "-")
       | "tmeq", [] =>
+        let (tm', e) := tm.getEq
         let verdict := match impl with
-          | some i => (match implFloats? i with
-            | some xs => if m.n < 2 then "-" else
-                if stationaryOf m.n (autoMatrix m.n m.lam).flatten xs then "ok" else "FAIL:autocorr_stationary"
+          | some i => if isExc i then "-" else (match implFloats? i with
+            | some xs => both (eqVerdict tm tm.spec.pij.flatten xs) (histTM i (showOpt tm.spec.eq))
             | none => "FAIL:parse")
           | none => "-"
-        (s, hxs m.eq, verdict)
-      | "tmclone", [k2] => (s.putTM k2 (.auto m), "ok", "-")
+        (s.putTM k tm', showOpt e, verdict)
+      | "tmall", [order] =>
+        -- getPij(), every Pij(i,j) and getEquilibriumFrequencies() in one answer ("pe": matrix first, "ep":
+        -- equilibrium vector first): `P ; Q ; E`
+        let (tm1, p, e) :=
+          if order == "ep" then let (t1, e) := tm.getEq; let (t2, p) := t1.getPij; (t2, p, e)
+          else let (t1, p) := tm.getPij; let (t2, e) := t1.getEq; (t2, p, e)
+        let q := (List.range n).flatMap (fun i => (List.range n).map (fun j => tm.spec.entry i j))
+        let qs := if q.isEmpty then "-" else " ".intercalate (q.map (fun x => match x with | some x => hx x | none => "ub"))
+        let out := hxs p.flatten ++ " ; " ++ qs ++ " ; " ++ showOpt e
+        let verdict := match impl with
+          | none => "-"
+          | some i =>
+            if isExc i then "-" else
+            match (splitTok ";" i).map implFloats? with
+            | [some P, some Q, some E] =>
+              let sp := tm.spec
+              if P.length != n * n || Q.length != n * n then "FAIL:parse"
+              -- getPij() agrees entry-wise with Pij(i,j) (both read the same parameters with the same expression)
+              else if hxs P != hxs Q then "FAIL:transition_pij_agree"
+              else both (both (pijVerdict tm P) (eqVerdict tm P E))
+                (histTM i (hxs sp.pij.flatten ++ " ; " ++ qs ++ " ; " ++ showOpt sp.eq))
+            | _ => "FAIL:parse"
+        (s.putTM k tm1, out, verdict)
       | _, _ => (s, "bad-op", "-")
-    | some (.full n lastP seenPij seenEq) =>
-      -- not modelled: the implementation's answer is echoed and judged
-      let echo := match impl with | some i => " ".intercalate i | none => "unmodelled"
-      match o, args with
-      | "tmsetP", r =>
-        match floats? r with
-        | some a => (s.putTM k (.full n (some a) none none), echo, "-")
-        | none => (s, "bad-op", "-")
-      | "tmpij", [] =>
-        match impl with
-        | none => (s, echo, "-")
-        | some i =>
-          if isExc i then (s, echo, "-") else
-          match implFloats? i with
-          | none => (s, echo, "FAIL:parse")
-          | some xs =>
-            let v := if !stochasticRows n xs then "FAIL:full_matrix_row_stochastic"
-              else if (match seenPij with | some p => p != i | none => false) then "FAIL:transition_order_independent"
-              else if (match lastP with | some a => !((a.toList.zip xs).all (fun (x, y) => Float.abs (x - y) ≤ 1e-12)) | none => false) then "FAIL:full_matrix_set"
-              else "ok"
-            (s.putTM k (.full n lastP (some i) seenEq), echo, v)
-      | "tmeq", [] =>
-        match impl with
-        | none => (s, echo, "-")
-        | some i =>
-          if isExc i then (s, echo, "-") else
-          match implFloats? i with
-          | none => (s, echo, "FAIL:parse")
-          | some xs =>
-            let P : List Float := match lastP with | some a => a.toList | none => List.replicate (n * n) (1.0 / Float.ofNat n)
-            let v := if (match seenEq with | some p => p != i | none => false) then "FAIL:transition_order_independent"
-              else if !stationaryOf n P xs then "FAIL:full_stationary"
-              else "ok"
-            (s.putTM k (.full n lastP seenPij (some i)), echo, v)
-      | "tmclone", [k2] => (s.putTM k2 (.full n lastP seenPij seenEq), "ok", "-")
-      | _, _ => (s, echo, "-")
   | _ => (s, "bad-op", "-")
 
 /-! ## parameters -/
@@ -479,22 +688,49 @@ def tmStep (s : St) (op : List String) (impl : Option (List String)) : St × Str
 def upd (old v : Float) : Float := if Float.abs (v - old) > 0 then v else old
 
 
-/-- `some tables'` when the name is a parameter of the object -/
-def setParam (o : Obj) (t : DTables) (name : String) (v : Float) : Option DTables :=
+/-- the tables a likelihood object sees when its transition matrix is the built-in model `tm` -/
+def tablesOfTM (t : DTables) (tm : TM) : DTables :=
+  { t with P := tm.spec.pij.flatten.toArray, F := (tm.spec.eq.getD []).toArray }
+
+inductive SetRes where
+  | notfound
+  | exc (e : String)
+  | ok (t : DTables) (tm : Option TM)
+
+/-- `setParameterValue(name, v)` (name without the namespace) on a likelihood object -/
+def setParam (o : Obj) (t : DTables) (tm : Option TM) (name : String) (v : Float) : SetRes :=
   let body := (name.drop 1).toString
-  if name.startsWith "p" then
+  if name.startsWith "e" then
+    if !o.withParams then .notfound else
     match parse2 body with
-    | some (i, j) => if i < t.n && j < t.n && body == s!"{i}_{j}" then some { t with P := t.P.modify (i * t.n + j) (upd · v) } else none
-    | none => none
-  else if name.startsWith "f" then
-    match body.toNat? with
-    | some k => if k < t.n && body == s!"{k}" then some { t with F := t.F.modify k (upd · v) } else none
-    | none => none
-  else if name.startsWith "e" && o.withParams then
-    match parse2 body with
-    | some (s, j) => if s < t.T && j < t.n && body == s!"{s}_{j}" then some { t with E := t.E.modify (s * t.n + j) (upd · v) } else none
-    | none => none
-  else none
+    | some (s, j) => if s < t.T && j < t.n && body == s!"{s}_{j}" then .ok { t with E := t.E.modify (s * t.n + j) (upd · v) } tm else .notfound
+    | none => .notfound
+  else
+  match tm with
+  | some m =>
+    match m.matchParam name v with
+    | .ok m' => .ok (tablesOfTM t m') (some m')
+    | .error "exc:notfound" => .notfound
+    | .error e => .exc e
+  | none =>
+    if name.startsWith "p" then
+      match parse2 body with
+      | some (i, j) => if i < t.n && j < t.n && body == s!"{i}_{j}" then .ok { t with P := t.P.modify (i * t.n + j) (upd · v) } tm else .notfound
+      | none => .notfound
+    else if name.startsWith "f" then
+      match body.toNat? with
+      | some k => if k < t.n && body == s!"{k}" then .ok { t with F := t.F.modify k (upd · v) } tm else .notfound
+      | none => .notfound
+    else .notfound
+
+/-- the parameter names of a likelihood object (alphabet: none; transition matrix; emissions), with the namespace -/
+def Obj.names (o : Obj) : List String :=
+  let t := o.tab
+  let tr := match o.tm with
+    | some m => m.names
+    | none => (List.range t.n).flatMap (fun i => (List.range t.n).map (fun j => s!"p{i}_{j}")) ++ (List.range t.n).map (fun k => s!"f{k}")
+  let em := if o.withParams then (List.range t.T).flatMap (fun s => (List.range t.n).map (fun j => ename s j)) else []
+  (tr ++ em).map (t.pre ++ ·)
 
 def parsePairs : List String → Option (List (String × Float))
   | [] => some []
@@ -509,8 +745,9 @@ def runOp (o : Obj) (op : Op Float) : Obj × Ans Float :=
   | .log g => let (g', a) := g.step op; ({ o with core := .log g' }, a)
 
 /-- an update (new tables or new break points) -/
-def update (s : St) (k : String) (o : Obj) (t : DTables) (op : Op Float) (impl : Option (List String)) : St × String × String :=
-  let (o1, a) := runOp { o with tab := t } op
+def update (s : St) (k : String) (o : Obj) (t : DTables) (op : Op Float) (impl : Option (List String))
+    (tm : Option TM := o.tm) : St × String × String :=
+  let (o1, a) := runOp { o with tab := t, tm := tm } op
   match a with
   | .exc => (s.put k { o1 with stale := true }, showAns a, "-")
   | _ => let o2 := { o1 with stale := false }; (s.put k o2, showAns a, llVerdict o2 impl)
@@ -537,7 +774,7 @@ def step (s : St) (op : List String) (impl : Option (List String)) : St × Strin
       let st := { s.stage with E := s.stage.E ++ a }
       ({ s with stage := st }, toString (st.E.size / (if st.n == 0 then 1 else st.n)), "-")
     | none => (s, "bad-op", "-")
-  | "tm" :: _ | "tmset" :: _ | "tmsetP" :: _ | "tmpij" :: _ | "tmPij" :: _ | "tmeq" :: _ | "tmclone" :: _ | "tmnames" :: _ =>
+  | "tm" :: _ | "tmset" :: _ | "tmsetP" :: _ | "tmpij" :: _ | "tmPij" :: _ | "tmeq" :: _ | "tmclone" :: _ | "tmassign" :: _ | "tmall" :: _ =>
     tmStep s op impl
   | "build" :: k :: algo :: wp :: r =>
     let t := s.stage
@@ -555,10 +792,38 @@ def step (s : St) (op : List String) (impl : Option (List String)) : St × Strin
       | some c =>
         let o : Obj := { core := c, withParams := wp == "1", tab := t }
         (s.put k o, hx o.logLik, llVerdict o impl)
+  | "buildtm" :: k :: algo :: wp :: tmk :: r =>
+    match s.getTM? tmk with
+    | none => (s, "no-object", "-")
+    | some tm =>
+      let t0 := s.stage
+      if t0.n != tm.n || t0.E.isEmpty || t0.E.size % t0.n != 0 then (s, "bad-stage", "-") else
+      let t := tablesOfTM { t0 with pre := "" } tm
+      let chunk := match r with | [c] => (nat? c).getD 0 | _ => 0
+      let core : Option Core := match algo with
+        | "resc" => (RescObj.build t.model).map Core.resc
+        | "low" => (LowObj.build t.model chunk).map Core.low
+        | "log" => some (Core.log (LogObj.build t.model))
+        | _ => none
+      if algo != "resc" && algo != "low" && algo != "log" then (s, "bad-op", "-") else
+      match core with
+      | none => (s.del k, "exc:bpp", "-")
+      | some c =>
+        let o : Obj := { core := c, withParams := wp == "1", tab := t, tm := some tm }
+        (s.put k o, hx o.logLik, llVerdict o impl)
   | ["clone", a, b] =>
     match s.get? a with
     | none => (s, "no-object", "-")
     | some o => (s.put b o, hx o.logLik, llVerdict o impl)
+  | ["assign", a, b] =>
+    -- `*b = *a` (operator= of the likelihood class; both objects must be of the same class)
+    match s.get? a, s.get? b with
+    | some oa, some ob =>
+      let same := match oa.core, ob.core with
+        | .resc _, .resc _ | .low _, .low _ | .log _, .log _ => true
+        | _, _ => false
+      if !same then (s, "class-mismatch", "-") else (s.put b oa, hx oa.logLik, llVerdict oa impl)
+    | _, _ => (s, "no-object", "-")
   | "agree" :: ks =>
     let os := ks.map s.get?
     let out := " ".intercalate (os.map (fun o => match o with | some o => hx o.logLik | none => "none"))
@@ -572,84 +837,103 @@ def step (s : St) (op : List String) (impl : Option (List String)) : St × Strin
       | "val", [] => (s, hx (-o.logLik), "-")
       | "brk", bs =>
         match bs.mapM nat? with
-        | some bps => update s k o o.tab (.setBreaks bps) impl
+        | some bps =>
+          -- an invalid vector is refused and the object is unchanged (in particular not "stale")
+          if !(breaksOk o.tab.T bps) then
+            (s, showAns (runOp o (.setBreaks bps)).2,
+              match impl with | some i => if isExc i then "ok" else "FAIL:invalid_breaks_refused" | none => "-")
+          else update s k o o.tab (.setBreaks bps) impl
         | none => (s, "bad-op", "-")
       | "setp", [name, v] =>
         match Hex.float? v with
         | none => (s, "bad-op", "-")
         | some v =>
-          match setParam o o.tab name v with
-          | none => (s, "exc:notfound", "-")
-          | some t => update s k o t (.setTables t.model) impl
+          match setParam o o.tab o.tm name v with
+          | .notfound => (s, "exc:notfound", "-")
+          | .exc e => (s, e, "-")
+          | .ok t tm => update s k o t (.setTables t.model) impl tm
       | "setps", r =>
         match parsePairs r with
         | none => (s, "bad-op", "-")
         | some prs =>
-          -- unknown names are ignored by setParametersValues / matchParametersValues
-          let t := prs.foldl (fun t (nv : String × Float) => ((setParam o t nv.1 nv.2).getD t)) o.tab
-          update s k o t (.setTables t.model) impl
+          -- full names; unknown names are ignored by setParametersValues / matchParametersValues
+          let (t, tm) := prs.foldl (fun (acc : DTables × Option TM) (nv : String × Float) =>
+            if !nv.1.startsWith acc.1.pre then acc else
+            match setParam o acc.1 acc.2 (nv.1.drop acc.1.pre.length).toString nv.2 with
+            | .ok t tm => (t, tm)
+            | _ => acc) (o.tab, o.tm)
+          update s k o t (.setTables t.model) impl tm
+      | "ns", pre =>
+        -- setNamespace: the parameter (and derivative variable) names change, the cached derivative names are forgotten
+        let t := { o.tab with pre := pre.headD "" }
+        update s k o t (.setTables t.model) impl
+      | "names", [] => (s, (let l := o.names; if l.isEmpty then "-" else " ".intercalate l), "-")
       | "post", [] =>
         let (o1, a) := runOp o .posterior
         (s.put k o1, showAns a, both (postVerdict o impl none) (match impl with | some i => if isExc i then "-" else histCheck o i (specOf o .posterior) | none => "-"))
+      | "postb", [b, app] =>
+        -- getHiddenStatesPosteriorProbabilities(probs, append) on the named target vector
+        let append := app == "1"
+        let buf := s.getBuf b
+        let mop : Op Float := .posteriorInto buf append
+        let (o1, a) := runOp o mop
+        let s1 := match a with | .mat m => s.putBuf b m | _ => s
+        (s1.put k o1, showAnsRows a,
+          both (postIntoVerdict o impl buf append)
+            (match impl with
+             | some i => if isExc i || o.stale then "-" else
+                 if " ".intercalate i == showAnsRows (specOf o mop) then "ok" else "FAIL:history_independent"
+             | none => "-"))
       | "post1", [site] =>
         match nat? site with
         | none => (s, "bad-op", "-")
         | some i =>
           if i ≥ o.tab.T then (s, "bad-site", "-") else
-          match o.core with
-          | .log g =>
-            -- getHiddenStatesPosteriorProbabilitiesForASite of the log-sum class has its own iterator logic
-            let (o1, _) := runOp o .posterior
-            match o1.core with
-            | .log g1 =>
-              let row := logPostRow (g1.fw.logLik[i]?.getD []) (g1.back[i]?.getD []) g1.fw.partials[logPostIdx1 i g.bps]?
-              (s.put k o1, match row with | some r => hxs r | none => "ub", postVerdict o impl (some [i]))
-            | _ => (s, "bad-op", "-")
-          | _ =>
-            let (o1, a) := runOp o .posterior
-            let out := match a with | .mat m => hxs (rowsOf m i).flatten | _ => showAns a
-            (s.put k o1, out, postVerdict o impl (some [i]))
+          let mop : Op Float := .posteriorSite i
+          let (o1, a) := runOp o mop
+          (s.put k o1, showAns a, both (postVerdict o impl (some [i]))
+            (match impl with | some im => if isExc im then "-" else histCheck o im (specOf o mop) | none => "-"))
       | "sl", [site] =>
         match nat? site with
         | none => (s, "bad-op", "-")
         | some i =>
           if i ≥ o.tab.T then (s, "bad-site", "-") else
-          let t := o.tab.model
-          let e : Emis Float := if i == 0 then t.e0 else (t.es[i - 1]?).getD t.e0
-          match o.core with
-          | .log g =>
-            let (o1, _) := runOp o .posterior
-            match o1.core with
-            | .log g1 =>
-              let row := logPostRow (g1.fw.logLik[i]?.getD []) (g1.back[i]?.getD []) g1.fw.partials[logPostIdx1 i g.bps]?
-              (s.put k o1, match row with | some r => hx (siteLik t.p r e) | none => "ub", siteVerdict o impl (some [i]))
-            | _ => (s, "bad-op", "-")
-          | _ =>
-            let (o1, a) := runOp o .posterior
-            let out := match a with | .mat m => (match m[i]? with | some r => hx (siteLik t.p r e) | none => "bad-site") | _ => showAns a
-            (s.put k o1, out, siteVerdict o impl (some [i]))
+          let mop : Op Float := .siteLik i
+          let (o1, a) := runOp o mop
+          (s.put k o1, showAns a, both (siteVerdict o impl (some [i]))
+            (match impl with | some im => if isExc im then "-" else histCheck o im (specOf o mop) | none => "-"))
       | "sls", [] =>
-        let t := o.tab.model
-        let (o1, a) := runOp o .posterior
-        let out := match a with | .mat m => hxs ((m.zip (t.e0 :: t.es)).map (fun (r, e) => siteLik t.p r e)) | _ => showAns a
-        (s.put k o1, out, siteVerdict o impl none)
+        let mop : Op Float := .siteLiks
+        let (o1, a) := runOp o mop
+        (s.put k o1, showAns a, both (siteVerdict o impl none)
+          (match impl with | some im => if isExc im then "-" else histCheck o im (specOf o mop) | none => "-"))
+      | "dsite", [site] | "d2site", [site] =>
+        -- getDLogLikelihoodForASite / getD2LogLikelihoodForASite
+        match nat? site with
+        | none => (s, "bad-op", "-")
+        | some i =>
+          let second := op.head! == "d2site"
+          let mop : Op Float := if second then .d2Site i else .dSite i
+          let (o1, a) := runOp o mop
+          match a with
+          | .ub => (s, "ub", "-")     -- the harness refuses these (out of range of the array that is read)
+          | _ =>
+            (s.put k o1, showAns a,
+              match impl with
+              | some im => if isExc im || o.stale || !namesOk o second then "-" else
+                  both (derivSiteVerdict o im i second) (histCheck o im (specOf o mop))
+              | none => "-")
       | dop, [var] =>
         if dop != "d1" && dop != "d2" then (s, "bad-op", "-") else
         let mop : Op Float := if dop == "d1" then .d1 var else .d2 var
         let (o1, a) := runOp o mop
-        match o.core with
-        | .log _ =>
-          -- not modelled: the answer is echoed, and judged against the exact derivative
-          (s, match impl with | some i => " ".intercalate i | none => "unmodelled",
-            match impl with
-            | some i => if isExc i || var == "" then "-" else derivVerdict o i var (if dop == "d1" then 1 else 2)
-            | none => "-")
-        | _ => (s.put k o1, showAns a,
+        let o2 := match a with | .exc => { o1 with stale := true } | _ => o1
+        (s.put k o2, showAns a,
             match impl with
             | some i => if isExc i || var == "" then "-" else
                 (match o.core with
-                 | .resc _ => both (derivVerdict o i var (if dop == "d1" then 1 else 2)) (histCheck o i (specOf o mop))
-                 | _ => "-")
+                 | .low _ => "-"
+                 | _ => both (derivVerdict o i var (if dop == "d1" then 1 else 2)) (histCheck o i (specOf o mop)))
             | none => "-")
       | _, _ => (s, "bad-op", "-")
   | _ => (s, "bad-op", "-")
